@@ -362,6 +362,7 @@ class Interp:
         self.max_paths = max_paths
         self.while_bound = while_bound
         self.max_steps = max_steps
+        self.max_recursion = 1
         # per path state
         self.prefix: List[int] = []
         self.trace: List[Tuple[int, int]] = []
@@ -1329,7 +1330,7 @@ class Interp:
             mod = fr.fi.module
             qual = fr.fi.qualname
             if not force_inline and (self.depth >= self.max_depth or not self.hooks.inline(self, fr.fi)
-                                     or qual in self.call_stack):
+                                     or self.call_stack.count(qual) >= self.max_recursion):
                 a = ([fr.self_val] if fr.bound else []) + list(args)
                 return self.opaque_call(qual, a, kwargs)
             if _has_yield(fnode):
